@@ -379,8 +379,9 @@ def byte_contracts():
         masks |= {n.targets[0].id for n in ast.walk(loop) if isinstance(n, ast.Assign) and len(n.targets) == 1 and isinstance(n.targets[0], ast.Name)
                   and isinstance(n.value, ast.BinOp) and isinstance(n.value.op, ast.RShift) and isinstance(n.value.left, ast.Name)
                   and n.value.left.id == n.targets[0].id}
+        readers = through_helpers(ex, ("_read_uint8", "_read_bytes"))     # the byte may be read through a contract-less helper
         bytes_ = {n.targets[0].id for n in ast.walk(loop) if isinstance(n, ast.Assign) and len(n.targets) == 1 and isinstance(n.targets[0], ast.Name)
-                  and isinstance(n.value, (ast.Call, ast.Subscript)) and any(isinstance(x, ast.Attribute) and x.attr in ("_read_uint8", "_read_bytes")
+                  and isinstance(n.value, (ast.Call, ast.Subscript)) and any(isinstance(x, ast.Attribute) and x.attr in readers
                                                                           for x in ast.walk(n.value))}
         if len(masks) > 1 or len(bytes_) != 1:
             raise ops.Unsupported(f"_read_boolean_vector: loop roles not recognised (mask {sorted(masks)}, byte {sorted(bytes_)})")
@@ -439,7 +440,7 @@ def byte_contracts():
                  ("returns-only-if-enough-bytes", lambda c: z3.Not(bv_short(c))),
                  ],
         raises=[Raises(BAD, when=bv_short, label="short stream")],
-        loops=role(both(is_seq("int"), body_calls("_read_uint8", "_read_bytes")), "bit-i-is-bit-7-minus-i-mod-8-of-byte-i-div-8", bv_inv, havoc=(bv_havoc,)),
+        loops=role(both(is_seq("int"), body_calls("_read_uint8", "_read_bytes", via_helpers=True)), "bit-i-is-bit-7-minus-i-mod-8-of-byte-i-div-8", bv_inv, havoc=(bv_havoc,)),
         note="7z BitVector (optionally preceded by the allAreDefined byte): MSB-first bits; any count"))
     out.append(FnContract(
         target=f"{RD}._seek_back_one", params=[("self", p_reader())],
@@ -601,15 +602,39 @@ def is_seq(*kinds, tag=None):
     return m
 
 
-def body_calls(*names):
-    """the loop body (including nested statements) calls a function / method / constructor with one of these names"""
+def _called_name(n):
+    f = n.func
+    return f.attr if isinstance(f, ast.Attribute) else getattr(f, "id", None)
+
+
+def through_helpers(ex, names):
+    """`names` plus the functions / methods of the module under verification WITHOUT a contract whose body calls one of them
+    (transitively).  The executor inlines a call of such a helper, so for the recognition of a loop's roles a call of the helper
+    *is* a call of what it wraps (a byte read moved into `_next_byte()` is still the byte read); a helper WITH a contract is seen
+    through that contract and is not followed."""
+    out = set(names)
+    fns = getattr(ex.module, "functions", {})
+    grew = True
+    while grew:
+        grew = False
+        for q, fn in fns.items():
+            short = q.split(".")[-1]
+            if short in out or ex.reg.get(f"{ex.module.rel}::{q}") is not None:
+                continue
+            if any(isinstance(n, ast.Call) and _called_name(n) in out for n in ast.walk(fn)):
+                out.add(short)
+                grew = True
+    return out
+
+
+def body_calls(*names, via_helpers=False):
+    """the loop body (including nested statements) calls a function / method / constructor with one of these names
+    (`via_helpers`: directly or through contract-less helpers of the module, see `through_helpers`)"""
     def m(ex, st, it, node):
+        wanted = through_helpers(ex, names) if via_helpers else names
         for n in ast.walk(node):
-            if isinstance(n, ast.Call):
-                f = n.func
-                nm = f.attr if isinstance(f, ast.Attribute) else getattr(f, "id", None)
-                if nm in names:
-                    return True
+            if isinstance(n, ast.Call) and _called_name(n) in wanted:
+                return True
         return False
     return m
 
